@@ -11,6 +11,8 @@ import (
 )
 
 var checks = map[string]func(run *ev.Run){
+	"C09": genlab.CheckC09,
+	"C10": genlab.CheckC10,
 	"C11": genlab.CheckC11,
 	"C12": difflab.CheckC12,
 	"C13": difflab.CheckC13,
